@@ -621,6 +621,85 @@ def pmce_stage(ck, fw, model_cases):
             model_cases.append((fw, c, r))
 
 
+# ---------------- compression negotiated, the compressed payload is NOT valid deflate data
+def codec_error_stage(ck, fw):
+    """a frame flagged compressed whose payload the inflater rejects (garbage, a deflate stream damaged in a later fragment, a
+    valid compressed message followed by a damaged one, a truncated stream), followed by a ping and a well-formed message
+    that must not be delivered.  Both roles, both policies, UTF-8 validation on/off, text/binary, fed whole / in three
+    reads / octet by octet.  Oracle: rfc_judge (invalid payload: close 1007 or drop + unclean, nothing delivered after it, no
+    exception out of dataReceived) and: the reaction is the same for every segmentation.  The Gallina model has no answer for
+    these runs (its decompressor is a total oracle)."""
+    import zlib
+    rng = ck.rng("codec-error")
+    cases, group = [], []
+    for role in ("server", "client"):
+        masked = role == "server"
+
+        def F(op, payload, fin=True, rsv=4):
+            return enc_frame(op, payload, fin=fin, rsv=rsv, masked=masked, key=bytes(rng.getrandbits(8) for _ in range(4)))
+        tail = F(9, b"pp", rsv=0) + F(1, b"ok", rsv=0)
+        good = zlib.compressobj(9, zlib.DEFLATED, -15)
+        z1 = (good.compress(b"hello hello hello hello, first message") + good.flush(zlib.Z_SYNC_FLUSH))[:-4]
+        z2 = (good.compress(b"hello hello second message with back-references") + good.flush(zlib.Z_SYNC_FLUSH))[:-4]
+        streams = []
+        for op in (1, 2):
+            streams.append(("garbage", F(op, b"x" * 47) + tail))
+            # first fragment: a complete sync-flushed piece (the inflater is at a block boundary); continuation: block type 3 (reserved)
+            streams.append(("bad-continuation", F(op, z1 + b"\x00\x00\xff\xff", fin=False) + F(0, b"\x06\x00\x00", fin=False, rsv=0) + F(0, b"", rsv=0) + tail))
+            streams.append(("second-message", F(op, z1) + F(op, b"\x07" + z2[1:] + b"\xfe\xff") + tail))
+            # ends inside the LEN field of a stored block: the 00 00 ff ff appended at the end of the message completes it to
+            # LEN=5 / NLEN=0xff00 (not complementary): rejected by end_decompress_message, not by decompress_message_data
+            streams.append(("bad-end", F(op, z1 + b"\x00\x00\xff\xff" + b"\x00\x05") + tail))
+            streams.append(("bad-end-fragmented", F(op, z1 + b"\x00\x00\xff\xff", fin=False) + F(0, b"\x00\x05", rsv=0) + tail))
+            streams.append(("reserved-block-type", F(op, b"\x06" + b"\x00" * 5) + tail))
+            for k in range(4):
+                streams.append((f"random", F(op, bytes(rng.getrandbits(8) | 6 for _ in range(rng.randint(1, 40)))) + tail))
+        for lbl, st in streams:
+            for fbd in (True, False):
+                for utf8 in (True, False):
+                    a, b = sorted((rng.randint(1, len(st) - 1), rng.randint(1, len(st) - 1)))
+                    splits = [[st], [st[:a], st[a:b], st[b:]], [st[k:k + 1] for k in range(len(st))]]
+                    g = []
+                    for chunks in splits:
+                        g.append(len(cases))
+                        cases.append(dict(BASE, role=role, fbd=fbd, utf8=utf8, pmc=True, label="codec-error:" + lbl, chunks=[x.hex() for x in chunks]))
+                    group.append(g)
+    res = run_cases(ck, fw, cases, timeout=900)
+    ck.note_cases(len(cases), (json.dumps([fw, "codec-error", c["role"], c["fbd"], c["utf8"], c["chunks"]]) for c in cases))
+
+    def reaction(r):
+        ev = r["events"]
+        cut = next((k for k, e in enumerate(ev) if e[0] in ("sendclose", "drop")), len(ev))
+        return json.dumps([ev[:cut], [e[:2] for e in ev[cut:cut + 1]], [e for e in ev[cut:] if e[0] == "msg"]])
+    rejected = 0
+    for c, r in zip(cases, res):
+        ctx = dict(server=c["role"] == "server", mask_opt=c["mask_opt"], apply_mask=c["apply_mask"], pmc=True, utf8=c["utf8"],
+                   max_frame=0, max_msg=0, pmc_max=None)
+        verdict = ws_recv.rfc_judge(ctx, b"".join(bytes.fromhex(x) for x in c["chunks"]))[1]
+        ck.bump(f"codec-error:{c['label'].split(':')[1]}:oracle={'/'.join(map(str, verdict[:2]))}:real-codec-raised={bool(r.get('codec_raised'))}")
+        rejected += verdict == ("fail", "zlib")
+        probs = [(k, w) for k, w in ws_recv.check_against_rfc(c, r) if not any(x in k for x in KNOWN_FAMILIES)]
+        if verdict == ("fail", "zlib") and not ws_recv.codec_raised(c, r) and not probs:
+            probs.append((f"{c['role']}/invalid-compressed-data/accepted", "the oracle's inflater rejects the compressed payload, the "
+                          "implementation's decompressor was not seen to raise"))
+        for key, what in probs:
+            ck.violation(key if key == ws_recv.CODEC_ERROR_KEY else f"pmc/invalid-compressed-data/{key}",
+                         f"[{fw}] {c['label']}, {c['role']} role, failByDrop={c['fbd']}, utf8validateIncoming={c['utf8']}, reads "
+                         f"{[len(x) // 2 for x in c['chunks']][:12]}: {what}",
+                         {"fw": fw, "case": c, "observed": {k: v for k, v in r.items() if k != "tape"}, "oracle": "rfc_judge"}, found_input=True)
+    for g in group:
+        sig = [reaction(res[i]) for i in g]
+        for i, sg in zip(g[1:], sig[1:]):
+            if sg != sig[0]:
+                c = cases[i]
+                ck.violation(f"pmc/invalid-compressed-data/{c['role']}/segmentation-dependent",
+                             f"[{fw}] {c['label']}, failByDrop={c['fbd']}, utf8validateIncoming={c['utf8']}: reaction to the stream fed whole "
+                             f"{sig[0][:300]} but fed as {[len(x) // 2 for x in c['chunks']][:12]} {sg[:300]}",
+                             {"fw": fw, "case": c, "observed": {k: v for k, v in res[i].items() if k != "tape"}, "twin": cases[g[0]]}, found_input=True)
+    ck.obligation(f"codec_error_stage_nonvacuous[{fw}]", rejected >= len(cases) // 2,
+                  f"{rejected} of {len(cases)} runs carry compressed data the oracle's inflater rejects")
+
+
 # ---------------- failures while the application has queued (synchronous / chopped) writes
 def pending_stage(ck, fw, base_cases, pid_tag):
     """the receiver's reaction must not depend on what the application has in its write queue (sendMessage(sync=True),
@@ -699,10 +778,12 @@ def run(ck):
         "xor_spec (its equality with the four maskers is C15); timers, traffic statistics, auto-ping bookkeeping and the "
         "asyncio receive queue are not modelled (queue: covered by the aio correspondence runs)",
         "oracle: permessage-deflate decompressor is a Section variable (codec) in the theorems and a replay tape of the real "
-        "zlib outputs in the correspondence run; streams the real codec rejects (zlib.error on invalid compressed data, which the "
-        "independent oracle's inflater rejects too) have no model answer: exactly those runs, recognised by the observed escaped "
-        "codec error, are left out of the model comparison and of the segmentation comparison and reported under "
-        "pmc/invalid-compressed-data/codec-error-escapes-dataReceived",
+        "zlib outputs in the correspondence run; the Gallina decompressor is TOTAL (no error branch): streams the real codec rejects "
+        "(the driver's wrapper sees decompress_message_data / end_decompress_message raise AND the independent oracle's inflater "
+        "rejects the data too) have no model answer and are left out of the model comparison; they are judged by the RFC oracle alone "
+        "(codec_error_stage: invalid payload -> close 1007 / drop + unclean, nothing delivered afterwards, same reaction for every "
+        "segmentation, no exception out of dataReceived = key pmc/invalid-compressed-data/codec-error-escapes-dataReceived, fixed in "
+        "/repo d7bccdc3); that error branch of onFrameData / onFrameEnd is therefore checked by differential testing, not by a theorem",
         "translator translators/ws_consts.py (ast + import) emits every integer comparison of the receive path and "
         "CLOSE_STATUS_CODES_ALLOWED into coq/Gen/WsConsts.v; trusted to emit what it reads, fails closed on a changed structure",
         "independent oracle: ws_recv.rfc_judge (RFC 6455 section 5 transcription, CPython's strict utf-8 codec, real zlib)",
@@ -827,6 +908,7 @@ def run(ck):
             config_plumbing(ck, fw0)
             api_stage(ck, fw0, corpus)
             pmce_stage(ck, fw0, model_cases)
+            codec_error_stage(ck, fw0)
             pend = []
             for role in ("server", "client"):
                 pseqs = [(lbl, st) for k, (lbl, st) in enumerate(boundary_streams(masked=(role == "server"))) if k % 3 == 0]
